@@ -7,17 +7,25 @@ import (
 	vf "github.com/ozontech/file.d/zzverif"
 )
 
-// C13: rename of present / absent / nested / colliding paths, with and without override.
+// C13: rename through Start with every kind of key: present / absent / nested / colliding paths, keys
+// with the underscore escape (also the bare "_"), empty key, with and without override.
 func VerifH_C13_rename() {
 	kind := vf.Choose("field-kind", verifKinds)
 	ev := verifEvent(kind, 1+vf.Choose("len", vf.Param("L", 1)))
-	paths := [][]string{{"f"}, {"f", "k"}, {"other"}, {"missing"}, {"f", "n", "d"}}
+	keys := []string{"f", "f.k", "other", "missing", "f.n.d", "__f", "_f", "_", ""}
 	names := []string{"g", "other", "f", "f.k", ""}
-	p := &Plugin{preserveFields: vf.Choose("preserve", 2) == 1}
-	for i := 0; i < 1+vf.Choose("renames", vf.Param("R", 1)); i++ {
-		p.paths = append(p.paths, paths[vf.Choose("path", len(paths))])
-		p.names = append(p.names, names[vf.Choose("name", len(names))])
+	c := Config{}
+	switch vf.Choose("override", 3) {
+	case 1:
+		c.Append("override", "true")
+	case 2:
+		c.Append("override", "false")
 	}
+	for i := 0; i < 1+vf.Choose("renames", vf.Param("R", 1)); i++ {
+		c.Append(keys[vf.Choose("key", len(keys))], names[vf.Choose("name", len(names))])
+	}
+	p := &Plugin{}
+	p.Start(&c, nil)
 	res := p.Do(ev)
 	if vf.Param("twin", 0) == 1 {
 		vf.Assert(res != pipeline.ActionPass, "twin")
